@@ -261,14 +261,34 @@ theorem parsed_fields_nonempty (url : Str) (rel : Bool) (r : Parsed)
     (h : parse_facebook_url url rel = .ok (some r)) : noEmpty r = true :=
   parse_facebook_url_noEmpty url rel r h
 
+/-- **every field that goes to the path of the canonical url is a clean path segment**
+(`pathFieldsClean`, `Model/FacebookScope.lean`): it has no `/ ? #` and no TAB CR LF — it is a piece,
+between two slashes, of the path `urlsplit` returned — and no white space (`str.isspace`) at either
+end: the blanks around each path segment are dropped before the path is routed
+(`"/".join(part.strip() for part in path.split("/"))`), and every segment `pathsplit` then returns
+is `strip()` of a segment of the path.  White space *inside* a field is possible (`/na sa`). -/
+theorem parsed_path_fields_clean (url : Str) (rel : Bool) (r : Parsed)
+    (h : parse_facebook_url url rel = .ok (some r)) : pathFieldsClean r = true := by
+  rw [parse_facebook_url_eq] at h
+  split at h
+  · cases h
+  · split at h
+    · cases h
+    · rename_i u' _ sp hsp
+      exact parseSplit_clean (squeezePath sp) r
+        (squeezePath_segClean sp (safe_urlsplit_path_abs _ sp hsp) (safe_urlsplit_path_chars _ sp hsp)) h
+
 /-- **round trip of what the parser returns, proved part**: for every string and both values
-of `allow_relative_urls`, if `parse_facebook_url` returns a record whose fields are made of
-ordinary characters (`charsOk`: the fields that go to the path of the canonical url are not
-`.`/`..` and have no `/ ? # ;` nor white space; those that go to its query have no `& # + %` TAB
-CR LF), then `.url` returns a url and parsing that url gives the same record.  Nothing else is
-assumed: that the fields are not empty (`parsed_fields_nonempty`) and that no earlier route of
-the parser takes the canonical url are *derived* from the fact that the parser returned the
-record. -/
+of `allow_relative_urls`, if `parse_facebook_url` returns a record `r` with `charsOk r` — no field
+that goes to the path of the canonical url contains `;` or is `.` / `..`, no field that goes to its
+query contains `& # + %` TAB CR LF — then `.url` returns a url and parsing that url gives the same
+record.  The excluded records are exactly those with a character that the builders do not escape
+and that `urljoin` / `urlsplit` / `parse_qs` read as syntax: each exclusion really fails
+(`excluded_shapes_fail`).  Nothing else is assumed: that the fields are not empty
+(`parsed_fields_nonempty`), that the path-borne ones have no white space at their ends, no `/ ? #`
+and no TAB CR LF (`parsed_path_fields_clean`), and that no earlier route of the parser takes the
+canonical url are *derived* from the fact that the parser returned the record.  White space
+inside a field, or at the ends of a query-borne one, is inside the proved part. -/
 theorem reparse_of_parse_partial (url : Str) (rel : Bool) (r : Parsed)
     (h : parse_facebook_url url rel = .ok (some r)) (hc : charsOk r = true) : Reparses r := by
   have hr : reparsable r = true := by
@@ -278,8 +298,10 @@ theorem reparse_of_parse_partial (url : Str) (rel : Bool) (r : Parsed)
     · split at h
       · cases h
       · rename_i u' _ sp hsp
+        have habs := safe_urlsplit_path_abs _ sp hsp
         exact parseSplit_reparsable (squeezePath sp) r
-          (squeezePath_abs sp (safe_urlsplit_path_abs _ sp hsp)) (squeezePath_noDbl sp) h hc
+          (squeezePath_abs sp habs) (squeezePath_noDbl sp)
+          (squeezePath_segClean sp habs (safe_urlsplit_path_chars _ sp hsp)) h hc
   exact reparse_url_partial r hr
 
 instance {α : Type} [DecidableEq α] : DecidableEq (Except Err α) := fun a b =>
@@ -319,15 +341,16 @@ theorem not_fullReparse_of_witness (u0 c0 : Str) (r0 : Parsed)
 that carries a url metacharacter is not rebuilt verbatim by `urljoin` / `parse_qs` (a dot segment
 is resolved, an empty `;params` is dropped, an escaped `&` ends the value).  These are outside
 the quantifier of the property (id-like / handle-like segments) and outside `charsOk`; every
-shape the former known findings KF-C19-FB-1..3 excluded is now inside the proved part
-(`fixed_findings_behave`). -/
+shape the former known findings KF-C19-FB-1..3 and KF-C19-FB-5 excluded is now inside the proved
+part (`fixed_findings_behave`, `segment_blanks_behave`). -/
 theorem fullReparse_false : ¬ FullReparse :=
   not_fullReparse_of_witness witnessUrl witnessCanonical (.handle witnessHandle)
     witness_facts.1 witness_facts.2.1 witness_facts.2.2.1
 
-/-- the region excluded by `charsOk` really fails: a dot segment, an empty `;params`, an escaped
-`&` and an escaped `+` in a query value — by design of `urljoin` / `parse_qs` —, and a segment that
-ends with a blank (known finding KF-C19-FB-5, replayed on the implementation by the check) -/
+/-- **every exclusion of `charsOk` really fails** (by design of `urljoin` / `urlsplit` /
+`parse_qs`: the builders do not escape): a dot segment is resolved, an empty `;params` is dropped;
+in a query value an escaped `&` ends the value, an escaped `+` comes back as a blank (`%`, `#`,
+TAB: `excluded_query_chars_fail`). -/
 theorem excluded_shapes_fail :
     parse_facebook_url "https://www.facebook.com/..".toList false = .ok (some (.handle "..".toList)) ∧
     (Parsed.handle "..".toList).url = .ok (some "https://www.facebook.com/".toList) ∧
@@ -347,11 +370,61 @@ theorem excluded_shapes_fail :
     (Parsed.video "a+b".toList none).url = .ok (some "https://www.facebook.com/watch/?v=a+b".toList) ∧
     parse_facebook_url "https://www.facebook.com/watch/?v=a+b".toList false
       = .ok (some (.video "a b".toList none)) ∧
-    charsOk (.video "a+b".toList none) = false ∧
-    parse_facebook_url "https://www.facebook.com/a /b".toList false = .ok (some (.handle "a ".toList)) ∧
-    (Parsed.handle "a ".toList).url = .ok (some "https://www.facebook.com/a ".toList) ∧
-    parse_facebook_url "https://www.facebook.com/a ".toList false = .ok (some (.handle "a".toList)) ∧
-    charsOk (.handle "a ".toList) = false := by
+    charsOk (.video "a+b".toList none) = false := by
+  decide +kernel
+
+/-- the other exclusions of `charsOk` for a field that goes to the query of the canonical url
+really fail too: `%` (`a%41` is decoded once more), `#` (starts the fragment), TAB (deleted by
+`urljoin` already) — each reachable in a returned record through an escape — and the id of a
+`FacebookUser` read by the people route from a *path* segment, whose `%26` the query decodes -/
+theorem excluded_query_chars_fail :
+    parse_facebook_url "https://www.facebook.com/watch?v=a%2541".toList false
+      = .ok (some (.video "a%41".toList none)) ∧
+    (Parsed.video "a%41".toList none).url = .ok (some "https://www.facebook.com/watch/?v=a%41".toList) ∧
+    parse_facebook_url "https://www.facebook.com/watch/?v=a%41".toList false
+      = .ok (some (.video "aA".toList none)) ∧
+    charsOk (.video "a%41".toList none) = false ∧
+    parse_facebook_url "https://www.facebook.com/watch?v=a%23b".toList false
+      = .ok (some (.video "a#b".toList none)) ∧
+    (Parsed.video "a#b".toList none).url = .ok (some "https://www.facebook.com/watch/?v=a#b".toList) ∧
+    parse_facebook_url "https://www.facebook.com/watch/?v=a#b".toList false
+      = .ok (some (.video "a".toList none)) ∧
+    charsOk (.video "a#b".toList none) = false ∧
+    parse_facebook_url "https://www.facebook.com/watch?v=a%09b".toList false
+      = .ok (some (.video "a\tb".toList none)) ∧
+    (Parsed.video "a\tb".toList none).url = .ok (some "https://www.facebook.com/watch/?v=ab".toList) ∧
+    parse_facebook_url "https://www.facebook.com/watch/?v=ab".toList false
+      = .ok (some (.video "ab".toList none)) ∧
+    charsOk (.video "a\tb".toList none) = false ∧
+    parse_facebook_url "https://www.facebook.com/people/x/a%26b".toList false
+      = .ok (some (.user "a%26b".toList none)) ∧
+    (Parsed.user "a%26b".toList none).url = .ok (some "https://www.facebook.com/profile.php?id=a%26b".toList) ∧
+    parse_facebook_url "https://www.facebook.com/profile.php?id=a%26b".toList false
+      = .ok (some (.user "a&b".toList none)) ∧
+    charsOk (.user "a%26b".toList none) = false := by
+  decide +kernel
+
+/-- **the inputs of the former known finding KF-C19-FB-5 now behave** (the `fix:` commit made from
+`notes/fixes/facebook-5-segment-blanks.diff`): the blanks around a path segment — any `str.isspace`
+character: U+0020, U+000B, U+001F, U+0085, U+00A0, U+3000 … — are no part of the id / handle, an
+all-blank segment is no segment, `/ people/a/5` is the people route; a blank *inside* a field stays
+and survives the round trip (the record satisfies `charsOk`), as does a blank at the end of a
+query value. -/
+theorem segment_blanks_behave :
+    parse_facebook_url "https://www.facebook.com/a /b".toList false = .ok (some (.handle "a".toList)) ∧
+    parse_facebook_url "https://www.facebook.com/ /a".toList false = .ok (some (.handle "a".toList)) ∧
+    parse_facebook_url "https://www.facebook.com/x/posts/5 /y".toList false
+      = .ok (some (.post "5".toList none (some "x".toList) none none)) ∧
+    parse_facebook_url "https://www.facebook.com/\u00a0nasa\u3000/photos/ a.1\u000b/5\u0085?x".toList false
+      = .ok (some (.photo "5".toList none none (some "nasa".toList) (some "1".toList))) ∧
+    parse_facebook_url "https://www.facebook.com/ people/a/5\u001f".toList false = .ok (some (.user "5".toList none)) ∧
+    parse_facebook_url "https://www.facebook.com/ / ".toList false = .ok none ∧
+    parse_facebook_url "https://www.facebook.com/na sa".toList false = .ok (some (.handle "na sa".toList)) ∧
+    charsOk (.handle "na sa".toList) = true ∧ pathFieldsClean (.handle "na sa".toList) = true ∧
+    parse_facebook_url "https://www.facebook.com/photo.php?fbid=5 ".toList false
+      = .ok (some (.photo "5 ".toList none none none none)) ∧
+    charsOk (.photo "5 ".toList none none none none) = true ∧
+    pathFieldsClean (.handle "a ".toList) = false := by
   decide +kernel
 
 /-- **the inputs of the former known findings KF-C19-FB-1..4 now behave** (fixes fec1df7,
@@ -416,13 +489,14 @@ example :
   decide +kernel
 
 /-- the hypothesis of `reparse_of_parse_partial` holds for what the parser returns on ordinary
-urls (a post of a page, a photo of an album, a user, an album id containing `a.`), and fails on a
-dot segment -/
+urls (a post of a page, a photo of an album, a user, an album id containing `a.`, a handle with a
+no-break space inside, a query value with blanks around), and fails on a dot segment -/
 example :
     charsOk (.post "1".toList none (some "nasa".toList) none none) = true ∧
     charsOk (.photo "456".toList none none (some "nasa".toList) (some "123".toList)) = true ∧
     charsOk (.photo "456".toList none none (some "nasa".toList) (some "a.a.".toList)) = true ∧
     charsOk (.user "100012345".toList none) = true ∧
+    charsOk (.handle "na\u00a0sa".toList) = true ∧ charsOk (.video " 5\u3000".toList none) = true ∧
     charsOk (.handle "..".toList) = false ∧
     noEmpty (.video "5".toList (some "nasa".toList)) = true ∧ noEmpty (.video [] (some "nasa".toList)) = false := by
   decide +kernel
